@@ -127,6 +127,23 @@ type vHandler struct {
 	after    bool         // a call was made after the failing call
 	buf      *Buffer      // re-entrant mode: the enclosing call's buffer
 	fn       int
+	errKind  int          // mode 1: which error value the handler fails with
+}
+
+// the error a failing handler returns: its own, or one of the library's own sentinels (a handler
+// that delegates to the library hands those back)
+func vHandlerErr(kind int) error {
+	switch kind {
+	case 1:
+		return errInvalidArray
+	case 2:
+		return errInvalidObject
+	case 3:
+		return errUnexpectedEOF
+	case 4:
+		return errPOutOfRange
+	}
+	return vErrStop
 }
 
 func (h *vHandler) HandleArrayValue(data []byte) (int, error) { return h.handle(nil, false, data) }
@@ -167,7 +184,7 @@ func (h *vHandler) handle(key []byte, isObj bool, data []byte) (int, error) {
 			h.after = true
 		}
 		if k == h.failAt {
-			return vNondetInt("pp"), vErrStop
+			return vNondetInt("pp"), vHandlerErr(h.errKind)
 		}
 	case 2:
 		pp := vNondetInt("pp")
@@ -284,12 +301,12 @@ func vH_C07(data []byte, obj bool) {
 }
 
 // ---- C09 ---------------------------------------------------------------
-func vH_C09(data []byte, obj bool, failAt int) {
-	h := &vHandler{whole: data, mode: 1, failAt: failAt}
+func vH_C09(data []byte, obj bool, failAt int, errKind int) {
+	h := &vHandler{whole: data, mode: 1, failAt: failAt, errKind: errKind}
 	_, err := vHandleValues(obj, data, h, nil)
 	if h.n > failAt {
 		vReach("C09.failed-call-made")
-		vAssert(err == vErrStop, "C09.same-error")
+		vAssert(err == vHandlerErr(errKind), "C09.same-error")
 		vAssert(h.n == failAt+1, "C09.no-further-calls")
 		vAssert(!h.after, "C09.no-call-after")
 	}
